@@ -124,6 +124,12 @@ class VFS:
             raise exc
         binary = "b" in mode
         writing = any(c in mode for c in "wax+")
+        if writing and path in self.files:
+            # "open-write": only an open for writing of an EXISTING file fails (permissions of that file)
+            exc = self.fail.pop("open-write", None)
+            if exc is not None:
+                self.log.append(("open-failed", path, mode, None))
+                raise exc
         truncate = "w" in mode
         if opener is not None:
             # builtin open() passes the flags it derived from the mode to the opener and uses whatever file the
@@ -232,6 +238,21 @@ class RawShim(io.RawIOBase):
 
     def write(self, b) -> int:
         exc = self.vfs.fail.pop("write", None)
+        if isinstance(exc, tuple):
+            # (exception, k): a short write - this call puts k bytes into the file and reports k (as write(2) does);
+            # the caller's next raw write raises the error without writing anything
+            exc, k = exc
+            part = bytes(b)[:k]
+            self.vfs.fail["write"] = exc
+            if part:
+                self.vfs.log.append(("write", self.path, self.pos, part, self.inode.ino))
+                cur = self.inode
+                if len(cur) < self.pos:
+                    cur.extend(b"\0" * (self.pos - len(cur)))
+                cur[self.pos : self.pos + len(part)] = part
+                self.pos += len(part)
+                return len(part)
+            exc = self.vfs.fail.pop("write")
         if exc is not None:
             raise exc
         data = bytes(b)
